@@ -387,6 +387,14 @@ func runC07(c *eng.Ctx) {
 			Exempt: map[string]string{"server.newMetadataAPI": "constructor"}}, "metadataAPI."+f)
 	}
 	c.Floor(12)
+	// ---- R07.10 guards evaluated with the proposal
+	c.Rule("R07.10", "K1")
+	ruleISRChangeGuards(c)
+	c.Floor(7)
+	c.Rule("R07.3", "K1")
+	ruleWitnessesAreCurrent(c)
+	c.Floor(2)
+
 }
 
 // sameRead: two values read the same field of the same base (no CSE in go/ssa), or are the same value.
